@@ -4,11 +4,12 @@
    (script_pubkey, explicit_script, unsigned_script_sig, script_code of every exported
    definite descriptor; the keys or the error class of at_derivation_index and the
    script_pubkey of the derived descriptor; into_single_descriptors;
-   find_derivation_index_for_spk over 0..8).  DescCasesDiag.v locates differences. *)
+   find_derivation_index_for_spk over 0..8; the key-path parser: parsed key or error kind, and
+   print (parse text) = text).  DescCasesDiag.v locates differences. *)
 From Coq Require Import List NArith.
 Import ListNotations.
 From Verif Require Import DescWrapModel DescCasesDefs DescPoolGen DescTablesGen DescScriptCasesGen DescKeyCasesGen DescSplitCasesGen DescCasesRun.
 
 Theorem desc_cases_match_model :
-  (failing_scripts, failing_keys, failing_splits, failing_finds) = ([], [], [], []).
-Proof. vm_cast_no_check (@eq_refl _ (@nil (N * N), @nil (N * N), @nil (N * N), @nil (N * N))). Qed.
+  (failing_scripts, failing_keys, failing_splits, failing_finds, failing_parses) = ([], [], [], [], []).
+Proof. vm_cast_no_check (@eq_refl _ (@nil (N * N), @nil (N * N), @nil (N * N), @nil (N * N), @nil (N * N))). Qed.
